@@ -13,8 +13,11 @@
 (*                the leaves x, y, s, q, 0, 1, -1, 2, 1/2 and + - * /:     *)
 (*                  Depth >= 1: every leaf and every op(leaf, leaf)        *)
 (*                  Depth >= 2: op(D1, leaf) and op(leaf, D1)              *)
-(*                  Depth >= 3: op(D1, D1)   (all of depth 2; only those   *)
-(*                              that mention q, on configuration 1 only)   *)
+(*                  Depth >= 3: op(D1', D1') with D1' = op(leaf', leaf')   *)
+(*                              over the leaves x, y, s, q, -1, 2 (all of  *)
+(*                              depth 2 over the sign-carrying leaves;     *)
+(*                              only the expressions that mention q, and   *)
+(*                              on configuration 1 only)                   *)
 (*                restricted to expressions that mention x or y (an        *)
 (*                expression without fluents has nothing to be judged)     *)
 (*                and that contain no division by a literally zero closed  *)
@@ -53,7 +56,10 @@ D1  == {EB(o, a, b) : o \in Ops, a \in Leaves, b \in Leaves}
 \* (TLC evaluates every constant definition at start-up: the guards keep unused levels empty)
 D2a == IF Depth < 2 THEN {}
        ELSE {EB(o, a, b) : o \in Ops, a \in D1, b \in Leaves} \cup {EB(o, a, b) : o \in Ops, a \in Leaves, b \in D1}
-D2b == IF Depth < 3 THEN {} ELSE {EB(o, a, b) : o \in Ops, a \in D1, b \in D1}
+\* the full depth 2 over the leaves that carry a sign or a variable: x, y, s, q, -1, 2
+LeavesB == Leaves \ {EC(0, 1), EC(1, 1), EC(1, 2)}
+D1B == {EB(o, a, b) : o \in Ops, a \in LeavesB, b \in LeavesB}
+D2b == IF Depth < 3 THEN {} ELSE {EB(o, a, b) : o \in Ops, a \in D1B, b \in D1B}
 Space == {e \in Leaves \cup D1 \cup D2a \cup D2b : Judged(e)}
 
 \* ---------- problems ----------
@@ -85,9 +91,9 @@ QuickCfgs == <<
    Cfg("q straddles 0 s>0", <<0 - 1, 1>>, <<1, 3>>, <<0 - 1, 2>>, S5, NV(2, 1)),
    Cfg("q>0 s<0", <<0 - 1, 1>>, <<1, 3>>, <<1, 3>>, S5, NV(0 - 2, 1))>>
 MoreCfgs == <<
-   Cfg("q<0 s>0 x<0", <<0 - 3, 0 - 1>>, <<0, 2>>, <<0 - 3, 0 - 1>>, S5, NV(2, 1)),
-   Cfg("q>=0 s=-1/2", <<0 - 1, 2>>, <<1, 3>>, <<0, 2>>, RealT(0 - 5, 5), NV(0 - 1, 2)),
-   Cfg("q<=0 s=1/2", <<0 - 1, 2>>, <<0 - 2, 0>>, <<0 - 2, 0>>, RealT(0 - 5, 5), NV(1, 2))>>
+   Cfg("q<0 s>0 x<0 y>=0 (4 x 3 values)", <<0 - 4, 0 - 1>>, <<0, 2>>, <<0 - 3, 0 - 1>>, S5, NV(2, 1)),
+   Cfg("q>=0 s=-1/2", <<0 - 1, 1>>, <<1, 3>>, <<0, 2>>, RealT(0 - 5, 5), NV(0 - 1, 2)),
+   Cfg("q<=0 s=1/2", <<0 - 1, 1>>, <<1, 3>>, <<0 - 2, 0>>, RealT(0 - 5, 5), NV(1, 2))>>
 Cfgs == IF Tier = "quick" THEN QuickCfgs ELSE QuickCfgs \o MoreCfgs
 
 \* ---------- calibration: the definitions can be false, and are false where they should ----------
